@@ -15,16 +15,24 @@ import (
 
 // AOp is one API stack operation.
 type AOp struct {
-	K string `json:"k"` // push pop get settop insert remove replace gettop
+	K string `json:"k"` // push pop get settop insert remove replace gettop | call
 	I int    `json:"i,omitempty"`
 	V int    `json:"v,omitempty"` // payload tag; 0 = LNil
+	// k=call: a call made in the middle of the script (I = NRet, -1 = MultRet)
+	C   string `json:"c,omitempty"`   // callee: go | lua | luav | luatail | reenter | nonfn
+	Via string `json:"via,omitempty"` // cbp | cbpp | call | pcall
+	N   int    `json:"n,omitempty"`   // arguments
+	J   int    `json:"j,omitempty"`   // values the callee leaves below its results
+	P   int    `json:"p,omitempty"`   // results produced
+	F   bool   `json:"f,omitempty"`   // the callee fails (protected vias only)
 }
 
 // RegOpt selects the registry configuration of the state.
 type RegOpt struct {
-	Size int `json:"size"`
-	Max  int `json:"max"`
-	Grow int `json:"grow"`
+	Size int  `json:"size"`
+	Max  int  `json:"max"`
+	Grow int  `json:"grow"`
+	Min  bool `json:"min,omitempty"` // Options{CallStackSize: 64, MinimizeStackMemory: true}: the call-frame stack grows in segments of 8
 }
 
 // ApiIn is the replayable input of a script case.
@@ -35,6 +43,7 @@ type ApiIn struct {
 	Init   []int  `json:"init"`   // tags of the activation's initial list (0 = nil)
 	Ops    []AOp  `json:"ops"`
 	Reg    RegOpt `json:"reg"`
+	Path   []Lvl  `json:"path,omitempty"` // when present: the callers (Depth = len(Path)); otherwise the alternating chain
 }
 
 func z(i int) string { return lib.CoqZ(int64(i)) }
@@ -130,7 +139,11 @@ func (e *cellEnc) dump(L *lua.LState) (int, []string) {
 }
 
 func newState(r RegOpt) *lua.LState {
-	return lua.NewState(lua.Options{RegistrySize: r.Size, RegistryMaxSize: r.Max, RegistryGrowStep: r.Grow})
+	o := lua.Options{RegistrySize: r.Size, RegistryMaxSize: r.Max, RegistryGrowStep: r.Grow}
+	if r.Min {
+		o.CallStackSize, o.MinimizeStackMemory = 64, true
+	}
+	return lua.NewState(o)
 }
 
 // chain runs `leaf` inside an activation at the given depth: levels alternate Lua and Go functions
@@ -278,69 +291,267 @@ func apiStep(L *lua.LState, e *cellEnc, o AOp) (ret string, raised bool, fault s
 
 const aboveWindow = 64
 
+// apiSeg is one CApi case: a run of stack operations between two calls (or the whole script).
+type apiSeg struct {
+	pre, l0, above, preAfter, ops, obs []string
+	pad                                int
+	fault                              string
+	holes, boundary, raisedAny         bool
+}
+
+// midCall is a call made in the middle of a script: one CCall case.
+type midCall struct {
+	op                 AOp
+	l0, after          []string
+	results            []int
+	fails, gotErr      bool
+	fault              string
+	spBefore, spAfter  int
+	preSame            bool
+}
+
+func producedN(n int) []int {
+	rs := make([]int, n)
+	for i := range rs {
+		if (i+n)%5 == 4 {
+			rs[i] = 0
+		} else {
+			rs[i] = 600 + i
+		}
+	}
+	return rs
+}
+
+// doMidCall performs the call operation o from the activation whose list starts at register base.
+func doMidCall(L *lua.LState, e *cellEnc, o AOp, base int) *midCall {
+	mc := &midCall{op: o, fails: o.F || o.C == "nonfn", results: producedN(o.P)}
+	gfn := func(L *lua.LState) int {
+		for i := 0; i < o.J; i++ {
+			L.Push(lua.LNumber(800 + i))
+		}
+		if o.F {
+			L.RaiseError("callee failed")
+		}
+		for _, v := range mc.results {
+			L.Push(valGo(v))
+		}
+		return len(mc.results)
+	}
+	load := func(src string, up lua.LValue) lua.LValue {
+		f, err := L.LoadString(src)
+		if err != nil {
+			panic(fmt.Sprint(err, "\n", src))
+		}
+		L.Push(f)
+		L.Push(up)
+		L.Call(1, 1)
+		fn := L.Get(-1)
+		L.Pop(1)
+		return fn
+	}
+	var fn lua.LValue
+	switch o.C {
+	case "lua":
+		fn = luaCallee(L, CallIn{Callee: "lua", NArgs: o.N, Junk: o.J, Produced: o.P, Fails: o.F})
+	case "luav":
+		fn = luaCallee(L, CallIn{Callee: "luavararg", NArgs: o.N, Junk: o.J, Produced: o.P, Fails: o.F})
+	case "luatail":
+		fn = load("local g = ...\nreturn function(a, ...) local j0, j1 = 1, 2; return g(a, ...) end", L.NewFunction(gfn))
+	case "reenter":
+		// a Lua function that itself calls a host function working on its own list, then fills temporaries
+		sub := L.NewFunction(func(L *lua.LState) int {
+			L.SetTop(7)
+			L.Insert(lua.LNumber(5), 2)
+			L.Pop(3)
+			L.Replace(1, lua.LNumber(31))
+			return 2
+		})
+		rs := luaArgs(mc.results)
+		body := "local sub = ...\nreturn function(...) local a, b = sub(1, 2, 3); local t = {1, 2, 3, 4, 5, 6, 7, 8, a, b}\n"
+		if o.F {
+			body += "  error('callee failed')\n"
+		}
+		fn = load(body+"  return "+strings.Join(rs, ", ")+"\nend", sub)
+	case "nonfn":
+		fn = lua.LNumber(1)
+	default:
+		fn = L.NewFunction(gfn)
+	}
+	args := make([]lua.LValue, o.N)
+	for i := range args {
+		args[i] = lua.LNumber(300 + i)
+	}
+	preBefore := strings.Join(newCellEnc().rawRange(L, 0, base), ";")
+	mc.l0 = e.rawRange(L, base, lua.VerifRegTop(L))
+	mc.spBefore = lua.VerifSp(L)
+	var err error
+	func() {
+		defer func() {
+			if r := recover(); r != nil {
+				mc.fault = fmt.Sprint(r)
+				if len(mc.fault) > 150 {
+					mc.fault = mc.fault[:150]
+				}
+			}
+		}()
+		switch o.Via {
+		case "call", "pcall":
+			L.Push(fn)
+			for _, a := range args {
+				L.Push(a)
+			}
+			if o.Via == "call" {
+				L.Call(o.N, o.I)
+			} else {
+				err = L.PCall(o.N, o.I, nil)
+			}
+		default:
+			err = L.CallByParam(lua.P{Fn: fn, NRet: o.I, Protect: o.Via == "cbpp"}, args...)
+		}
+	}()
+	mc.gotErr = err != nil
+	mc.spAfter = lua.VerifSp(L)
+	if top := lua.VerifRegTop(L); top >= base {
+		mc.after = e.rawRange(L, base, top)
+	} else {
+		mc.after = []string{"(Some (VRef 666))"}
+	}
+	mc.preSame = preBefore == strings.Join(newCellEnc().rawRange(L, 0, base), ";")
+	return mc
+}
+
+func (in ApiIn) run(L *lua.LState, leaf func(L *lua.LState) int) (bool, error) {
+	if len(in.Path) > 0 {
+		return chainPath(L, in.Path, in.Init, leaf)
+	}
+	return chain(L, in.Depth, in.Locals, in.Init, leaf)
+}
+
 func runApi(w *lib.Writer, in ApiIn, class string) {
 	L := newState(in.Reg)
 	defer L.Close()
 	e := newCellEnc()
-	var pre, l0, above, preAfter, ops, obs []string
-	var pad int
-	var fault string
-	holes, boundary, raisedAny := false, false, false
+	type item struct {
+		seg  *apiSeg
+		call *midCall
+	}
+	var items []item
+	invocations := 0
 	leaf := func(L *lua.LState) int {
+		invocations++
+		if invocations > 3 {
+			return 0
+		}
 		base := lua.VerifLocalBase(L)
-		top := lua.VerifRegTop(L)
-		pre = e.rawRange(L, 0, base)
-		l0 = e.rawRange(L, base, top)
-		above = e.rawRange(L, top, top+aboveWindow)
-		pad = lua.VerifRegCap(L) - top - len(above)
+		open := func() *apiSeg {
+			top := lua.VerifRegTop(L)
+			s := &apiSeg{pre: e.rawRange(L, 0, base), l0: e.rawRange(L, base, top), above: e.rawRange(L, top, top+aboveWindow)}
+			s.pad = lua.VerifRegCap(L) - top - len(s.above)
+			items = append(items, item{seg: s})
+			return s
+		}
+		seg := open()
 		for _, o := range in.Ops {
+			if o.K == "call" {
+				seg.preAfter = e.rawRange(L, 0, base)
+				mc := doMidCall(L, e, o, base)
+				items = append(items, item{call: mc})
+				if mc.fault != "" {
+					return 0
+				}
+				seg = open()
+				continue
+			}
 			n := L.GetTop()
 			if o.K != "push" && o.K != "gettop" && o.K != "pop" && (o.I == 0 || o.I == n+1 || o.I == -(n+1) || o.I > n+1 || o.I < -(n+1)) {
-				boundary = true
+				seg.boundary = true
 			}
 			ret, raised, f := apiStep(L, e, o)
-			ops = append(ops, o.coq())
+			seg.ops = append(seg.ops, o.coq())
 			if f != "" {
-				fault = f
-				obs = append(obs, "mkAobs StFault None 0 []")
+				seg.fault = f
+				seg.obs = append(seg.obs, "mkAobs StFault None 0 []")
 				break
 			}
 			nt, cells := e.dump(L)
 			st := "StOk"
 			if raised {
 				st = "StRaised"
-				raisedAny = true
+				seg.raisedAny = true
 			}
 			for _, c := range cells {
 				if c == "None" {
-					holes = true
+					seg.holes = true
 				}
 			}
-			obs = append(obs, fmt.Sprintf("mkAobs %s %s %d %s", st, ret, nt, lib.CoqList(cells)))
+			seg.obs = append(seg.obs, fmt.Sprintf("mkAobs %s %s %d %s", st, ret, nt, lib.CoqList(cells)))
 			if raised {
 				break
 			}
 		}
-		preAfter = e.rawRange(L, 0, base)
+		seg.preAfter = e.rawRange(L, 0, base)
 		return 0
 	}
-	ok, err := chain(L, in.Depth, in.Locals, in.Init, leaf)
-	id := w.Add(lib.Case{
-		Input: in, Observed: map[string]any{"obs": obs, "callers_ok": ok}, Class: class,
-		// non-trivial: a frame base above 0 and (a boundary / out-of-range index or a raise)
-		Nontrivial: in.Depth > 0 && (boundary || raisedAny) && !holes,
-		Coq: fmt.Sprintf("CApi %s %s %s %d %d %d %s %s %s %s", lib.CoqList(pre), lib.CoqList(l0), lib.CoqList(above), pad, in.Reg.growN(), in.Reg.maxN(),
-			lib.CoqList(ops), lib.CoqList(obs), lib.CoqList(preAfter), lib.CoqBool(ok)),
-	})
-	if fault != "" {
-		w.GoFail(id, "stack operation panicked in Go: "+fault)
+	ok, err := in.run(L, leaf)
+	first := -1
+	for i, it := range items {
+		if s := it.seg; s != nil {
+			if len(s.ops) == 0 && len(items) > 1 {
+				continue // nothing happened between two calls
+			}
+			cl := class
+			if i > 0 {
+				cl += "/after-call"
+			}
+			for _, c := range s.above {
+				if c != "None" && c != "(Some VNil)" {
+					cl += "+stale-above" // values of callers / finished callees sit in the cells above the top
+					break
+				}
+			}
+			id := w.Add(lib.Case{
+				Input: in, Observed: map[string]any{"obs": s.obs, "callers_ok": ok}, Class: cl,
+				// non-trivial: a frame base above 0 and (a boundary / out-of-range index or a raise)
+				Nontrivial: len(s.pre) > 0 && (s.boundary || s.raisedAny) && !s.holes,
+				Coq: fmt.Sprintf("CApi %s %s %s %d %d %d %s %s %s %s", lib.CoqList(s.pre), lib.CoqList(s.l0), lib.CoqList(s.above), s.pad, in.Reg.growN(), in.Reg.maxN(),
+					lib.CoqList(s.ops), lib.CoqList(s.obs), lib.CoqList(s.preAfter), lib.CoqBool(ok)),
+			})
+			if first < 0 {
+				first = id
+			}
+			if s.fault != "" {
+				w.GoFail(id, "stack operation panicked in Go: "+s.fault)
+			}
+			continue
+		}
+		mc := it.call
+		id := w.Add(lib.Case{Input: in, Observed: map[string]any{"err": mc.gotErr, "after": mc.after, "sp": []int{mc.spBefore, mc.spAfter}}, Class: "api-call/" + mc.op.Via + "/" + mc.op.C,
+			Nontrivial: mc.op.I != mc.op.P || mc.fails,
+			Coq: fmt.Sprintf("CCall %s %s %s %s %s %s", lib.CoqList(mc.l0), lib.CoqList(cellsOf(mc.results)), z(mc.op.I), lib.CoqBool(mc.fails), lib.CoqBool(mc.gotErr), lib.CoqList(mc.after))})
+		if first < 0 {
+			first = id
+		}
+		if mc.fault != "" {
+			w.GoFail(id, "a call made from the script panicked in Go: "+mc.fault)
+		} else {
+			if !mc.preSame {
+				w.GoFail(id, "the call disturbed registry cells of the callers")
+			}
+			if mc.spBefore != mc.spAfter {
+				w.GoFail(id, fmt.Sprintf("call-stack depth %d before the call, %d after", mc.spBefore, mc.spAfter))
+			}
+		}
+	}
+	if first < 0 {
+		// the leaf was never reached
+		first = w.Add(lib.Case{Input: in, Observed: map[string]any{"reached": false}, Class: class, Coq: "CObj 96 [0] [1]"})
 	}
 	if err != nil {
 		s := err.Error()
 		if len(s) > 200 {
 			s = s[:200]
 		}
-		w.GoFail(id, "the chain of calls around the script failed: "+s)
+		w.GoFail(first, "the chain of calls around the script failed: "+s)
 	}
 }
 
@@ -376,10 +587,19 @@ func genLocals(r *lib.Rand, reg RegOpt) []int {
 	return ls
 }
 
-func genApi(r *lib.Rand, depth int) ApiIn {
+func genApi(r *lib.Rand, depth int, usePath bool) ApiIn {
 	reg := genRegOpt(r)
 	in := ApiIn{Kind: "api", Depth: depth, Reg: reg, Locals: genLocals(r, reg)}
 	n0 := r.Intn(5)
+	if usePath && depth > 0 {
+		in.Path = genPath(r, depth)
+		in.Reg.Min = r.Chance(30)
+		if r.Chance(25) && depth >= 2 {
+			// the shape that leaves a Lua caller's dead temporaries above the host function's list
+			sp := stalePath(r.Intn(3), r.Range(4, 14), hiHows[r.Intn(len(hiHows))], r.Intn(2))
+			copy(in.Path[depth-2:], sp)
+		}
+	}
 	tag := 1
 	nv := func() int {
 		tag++
@@ -392,6 +612,19 @@ func genApi(r *lib.Rand, depth int) ApiIn {
 		in.Init = append(in.Init, nv())
 	}
 	top := n0 // shadow top (exact unless an operation raises, which ends the script)
+	if len(in.Path) > 0 {
+		top = entryCount(in.Path[len(in.Path)-1].How, n0)
+	}
+	// reads above the top: what the callers (or an earlier call) left there must not be visible
+	probe := func() {
+		for j, n := 0, r.Range(1, 3); j < n; j++ {
+			in.Ops = append(in.Ops, AOp{K: "get", I: top + r.Range(1, 12)})
+		}
+	}
+	if usePath && r.Chance(60) {
+		probe()
+	}
+	ncalls := 0
 	idx := func() int {
 		switch r.Pick(40, 12, 10, 10, 8, 6, 6, 8) {
 		case 0:
@@ -419,8 +652,36 @@ func genApi(r *lib.Rand, depth int) ApiIn {
 		}
 	}
 	nops := r.Range(3, 12)
+	wcall := 0
+	if usePath {
+		wcall = 7
+	}
 	for len(in.Ops) < nops {
-		switch r.Pick(22, 10, 14, 12, 14, 12, 10, 6) {
+		switch r.Pick(22, 10, 14, 12, 14, 12, 10, 6, wcall) {
+		case 8:
+			if ncalls == 2 {
+				continue
+			}
+			ncalls++
+			o := AOp{K: "call", C: []string{"go", "go", "lua", "luav", "luatail", "reenter", "nonfn"}[r.Intn(7)], Via: []string{"cbp", "cbpp", "cbpp", "call", "pcall"}[r.Intn(5)],
+				N: r.Intn(4), J: r.Intn(4), P: r.Intn(4), I: r.Range(-1, 4), F: r.Chance(35)}
+			if o.C == "nonfn" {
+				o.P, o.F = 0, false
+			}
+			if (o.F || o.C == "nonfn") && (o.Via == "cbp" || o.Via == "call") {
+				o.Via = []string{"cbpp", "pcall"}[r.Intn(2)]
+			}
+			in.Ops = append(in.Ops, o)
+			if !o.F && o.C != "nonfn" {
+				if o.I < 0 {
+					top += o.P
+				} else {
+					top += o.I
+				}
+			}
+			if r.Chance(50) {
+				probe()
+			}
 		case 0:
 			in.Ops = append(in.Ops, AOp{K: "push", V: nv()})
 			top++
@@ -501,6 +762,7 @@ type CallIn struct {
 	Protect  bool   `json:"protect"`
 	Fails    bool   `json:"fails"`
 	Reg      RegOpt `json:"reg"`
+	Path     []Lvl  `json:"path,omitempty"` // when present: the callers (Depth = len(Path)); otherwise the alternating chain
 }
 
 func luaCallee(L *lua.LState, in CallIn) *lua.LFunction {
@@ -621,6 +883,7 @@ func runCall(w *lib.Writer, in CallIn, class string) {
 	var gotErr, observed bool
 	var spBefore, spAfter int
 	leaf := func(L *lua.LState) int {
+		callLog = nil // (a path may enter the leaf twice: the last activation is the one reported)
 		base := lua.VerifLocalBase(L)
 		pre = e.rawRange(L, 0, base)
 		l0 = e.rawRange(L, base, lua.VerifRegTop(L))
@@ -650,7 +913,13 @@ func runCall(w *lib.Writer, in CallIn, class string) {
 		observed = true
 		return 0
 	}
-	ok, cerr := chain(L, in.Depth, in.Locals, in.Init, leaf)
+	var ok bool
+	var cerr error
+	if len(in.Path) > 0 {
+		ok, cerr = chainPath(L, in.Path, in.Init, leaf)
+	} else {
+		ok, cerr = chain(L, in.Depth, in.Locals, in.Init, leaf)
+	}
 	fails := in.Fails || in.Callee == "nonfunction"
 	protected := in.Protect || in.Via == "pcall" || in.Via == "gpcall"
 	if in.Via == "call" {
@@ -731,9 +1000,17 @@ func cellsOf(vs []int) []string {
 	return out
 }
 
-func genCall(r *lib.Rand, depth int) CallIn {
+func genCall(r *lib.Rand, depth int, usePath bool) CallIn {
 	reg := genRegOpt(r)
 	in := CallIn{Kind: "call", Depth: depth, Reg: reg, Locals: genLocals(r, reg)}
+	if usePath && depth > 0 {
+		in.Path = genPath(r, depth)
+		in.Reg.Min = r.Chance(30)
+		if r.Chance(25) && depth >= 2 {
+			sp := stalePath(r.Intn(3), r.Range(4, 14), hiHows[r.Intn(len(hiHows))], r.Intn(2))
+			copy(in.Path[depth-2:], sp)
+		}
+	}
 	in.Via = []string{"callbyparam", "callbyparam", "callbyparam", "call", "pcall", "gpcall"}[r.Intn(6)]
 	in.Callee = []string{"go", "go", "lua", "lua", "luavararg", "nonfunction", "callable-table", "callable-table", "callable-userdata"}[r.Intn(9)]
 	in.NArgs = r.Intn(5)
@@ -750,6 +1027,15 @@ func genCall(r *lib.Rand, depth int) CallIn {
 	}
 	for i, n := 0, r.Intn(4); i < n; i++ {
 		in.Init = append(in.Init, 40+i)
+	}
+	if (in.Fails || in.Callee == "nonfunction") && (in.Via == "call" || (in.Via == "callbyparam" && !in.Protect)) {
+		// an unprotected failing call: the error must reach the outermost protected call, so no level of the
+		// path may catch it
+		for k := range in.Path {
+			if h := in.Path[k].How; h == "pcall" || h == "cbpp" {
+				in.Path[k].How = "call"
+			}
+		}
 	}
 	return in
 }
